@@ -78,6 +78,7 @@ def gen_case(rng):
             E.sym("p"),
         ])
         seq = {"kind": kind, "term_expression": term, "iterator_symbol": "i"}
+        want_prod = True      # the product over a custom sequence: prod_i (term(i) * child), the child's value once PER round
     points = []
     for _ in range(4):
         p = {"K": rng.randint(0, 12), "m": rng.randint(0, 4)}
